@@ -430,6 +430,39 @@ pub fn run(ctx: &Ctx) -> Result<Ev, String> {
             total.violation(Violation { sig: format!("c04:{}:alias:{}", m, outcome), what: format!("`{}` ({}): {}", src.replace('\n', " | "), class, e), replay: chk.to_json() });
         }
     }
+    // free-form leg: the byte decoder of the libFuzzer target `instr`, driven by the seeded PRNG
+    {
+        use proptest::prelude::RngCore;
+        let n: u64 = if ctx.thorough { 8_000_000 } else { 800_000 };
+        let parts: Vec<Ev> = (0..32u64)
+            .into_par_iter()
+            .map(|sh| {
+                let mut rng = crate::par::rng_for(ctx.seed, "C04-free", sh);
+                let mut ev = Ev::new("C04");
+                for i in 0..n / 32 {
+                    let mut buf = [0u8; 64];
+                    rng.fill_bytes(&mut buf);
+                    let c = crate::decode::instr_case(&mut crate::decode::Cur::new(&buf));
+                    ev.eval();
+                    let (class, r) = crate::fuzz::instr_c04(&c);
+                    ev.class(&format!("free-form:{}", class));
+                    if class == "illegal" {
+                        ev.nt(fp(&(&c.m, &c.ops, c.pc, &c.spell)));
+                    }
+                    if sh == 0 && i < 3 {
+                        ev.samples.push(json!({"src": c.source(None), "verdict": class}));
+                    }
+                    if let Err(v) = r {
+                        ev.violation(v);
+                    }
+                }
+                ev
+            })
+            .collect();
+        for p in parts {
+            total.merge(p);
+        }
+    }
     for (src, tag) in raw_cases() {
         total.eval();
         total.class(&format!("{}:illegal", tag));
@@ -444,5 +477,5 @@ pub fn run(ctx: &Ctx) -> Result<Ev, String> {
 }
 
 pub fn rule() -> String {
-    "bounded-exhaustive: every mnemonic × (each operand position swept over its whole window: registers 0..31, immediates/ports/bits/displacements/addresses well beyond both ends of the legal range incl. negatives, every pointer form) × frames for the other positions, plus operand-kind and operand-count confusions, plus the reduced core; non-trivial = the independent ISA reference judges the tuple un-encodable (must be rejected); distinct = distinct (mnemonic, operand list, device)".into()
+    "bounded-exhaustive: every mnemonic × (each operand position swept over its whole window: registers 0..31, immediates/ports/bits/displacements/addresses well beyond both ends of the legal range incl. negatives, every pointer form) × frames for the other positions, plus operand-kind and operand-count confusions, plus the reduced core, plus a seeded free-form leg (random operand lists of every kind, count and spelling at word addresses 0..5); non-trivial = the independent ISA reference judges the tuple un-encodable (must be rejected); distinct = distinct (mnemonic, operand list, device)".into()
 }
